@@ -265,6 +265,26 @@ func c01AddConv[P curves.Point[P, F, S], F algebra.FiniteFieldElement[F], S alge
 			}
 		}
 	}
+	// measured: does the library's reconstruction vector for this quorum use several rows of one holder?
+	_ = safely(func() string {
+		for _, id := range q {
+			cs, err := shard.MSP().ReconstructionCoefficients(id, q...)
+			if err != nil {
+				return "err"
+			}
+			nz := 0
+			for _, c := range cs {
+				if !c.IsZero() {
+					nz++
+				}
+			}
+			if nz > 1 {
+				o.Count("msp.quorum-member-uses-several-rows")
+				return "ok"
+			}
+		}
+		return "ok"
+	})
 	o.Emit(c01Prop, fmt.Sprintf("addconv %s %d %d %s %s %s %s %s", curve, len(v.Rows), cols, idsStr(v.Labels), matHex(v.Rows), pointsStr(v.V), pointStr(v.PK), idsStr(q)), "ok")
 }
 
@@ -285,12 +305,13 @@ type c01Params struct {
 	runner      bool
 	realSession bool
 	nMin, nMax  int
-	capCNF      bool
+	quick       bool
 	spec        string // fixed spec ("" = generate from the family)
+	fixedQuorum []ID   // with a fixed spec: the signing quorum (nil = by qmode)
 }
 
-func c01CommonParams(row c01Row, nMin, nMax int, capCNF bool) c01Params {
-	p := c01Params{row: row, family: row.get("family"), keygen: row.get("keygen"), qmode: row.get("quorum"), nMin: nMin, nMax: nMax, capCNF: capCNF}
+func c01CommonParams(row c01Row, nMin, nMax int, quick bool) c01Params {
+	p := c01Params{row: row, family: row.get("family"), keygen: row.get("keygen"), qmode: row.get("quorum"), nMin: nMin, nMax: nMax, quick: quick}
 	for _, d := range row.dims {
 		switch d.name {
 		case "api":
@@ -312,6 +333,8 @@ func c01IDClass(ids []ID) string {
 		return "above-2^32"
 	case uint64(s[len(s)-1]) == uint64(len(s)):
 		return "consecutive"
+	case uint64(s[len(s)-1]) <= 64:
+		return "sparse-below-65"
 	default:
 		return "sparse"
 	}
@@ -326,10 +349,19 @@ func c01Setup[P curves.Point[P, F, S], F algebra.FiniteFieldElement[F], S algebr
 		spec := p.spec
 		if spec == "" {
 			n := p.nMin + r.IntN(p.nMax-p.nMin+1)
+			if p.qmode == "rand" {
+				n = p.nMax // room for a quorum strictly between a minimal one and all holders
+			}
 			if (p.family == "bool" || p.family == "hier") && n < 3 {
 				n = 3
 			}
-			spec = genSpec(r, p.family, n, p.capCNF)
+			// CNF holder IDs are not capped (cnf.InducedMSP handles IDs > 64 since /repo 31f4236; a panic
+			// there is still reported as cnf-id-above-64-panic); the quick tier only avoids structures with
+			// a powerless holder (open finding, reported by the thorough tier under cnf-powerless-holder)
+			spec = genSpec(r, p.family, n, false)
+			for p.quick && cnfPowerlessHolder(spec) {
+				spec = genSpec(r, p.family, n, false)
+			}
 		}
 		key := c01Keygen(o, seed, stream+uint64(attempt)*1_000_003, g, p.keygen, spec)
 		if key == nil {
@@ -339,6 +371,9 @@ func c01Setup[P curves.Point[P, F, S], F algebra.FiniteFieldElement[F], S algebr
 			continue
 		}
 		q := c01QuorumKind(r, key.ac, p.qmode)
+		if p.fixedQuorum != nil {
+			q = sortedIDs(p.fixedQuorum)
+		}
 		if len(q) < 2 {
 			o.Note("quorum of one holder: regenerated " + spec)
 			o.Count("regenerated.single-holder-quorum")
@@ -353,20 +388,27 @@ func c01Setup[P curves.Point[P, F, S], F algebra.FiniteFieldElement[F], S algebr
 	return nil, nil, r
 }
 
-func (p c01Params) countRun(o *jobOut, proto string, key interface{ specOf() (string, string) }, q []ID, nHolders int, ids []ID) {
-	spec, keygen := key.specOf()
+func (p c01Params) countRun(o *jobOut, proto string, ac accessstructures.Monotone, spec, keygen string, q []ID) {
 	fam := strings.SplitN(spec, ":", 2)[0]
+	ids := specIDs(spec)
 	o.Count("sign." + proto)
 	o.Count("keygen." + keygen)
 	o.Count("family." + fam)
 	o.Count("family-x-proto." + fam + "." + proto)
 	o.Count(fmt.Sprintf("quorum.size=%d", len(q)))
-	if len(q) == nHolders {
-		o.Count("quorum.kind=all-holders")
-	} else if p.qmode == "min" {
+	minimal := false
+	for _, m := range minimalQualifiedSets(ac) {
+		minimal = minimal || slices.Equal(sortedIDs(m), sortedIDs(q))
+	}
+	switch {
+	case minimal && len(q) == len(accessIDs(ac)):
+		o.Count("quorum.kind=minimal-and-all-holders")
+	case minimal:
 		o.Count("quorum.kind=minimal")
-	} else {
-		o.Count("quorum.kind=non-minimal")
+	case len(q) == len(accessIDs(ac)):
+		o.Count("quorum.kind=non-minimal-all-holders")
+	default:
+		o.Count("quorum.kind=non-minimal-proper-subset")
 	}
 	o.Count("ids." + c01IDClass(ids))
 	if !slices.IsSorted(ids) {
@@ -381,8 +423,6 @@ func (p c01Params) countRun(o *jobOut, proto string, key interface{ specOf() (st
 		p.row.countCovered(o)
 	}
 }
-
-func (k *c01Key[P, F, S]) specOf() (string, string) { return k.spec, k.keygen }
 
 // specIDs lists the IDs of a spec in the order in which they are written.
 func specIDs(spec string) []ID {
@@ -457,7 +497,7 @@ func c01ECDSA[P curves.Point[P, B, S], B algebra.PrimeFieldElement[B], S algebra
 		o.Violation(c01Prop, fmt.Sprintf("honest-signing-failed %s status=%s agg=%s %s", tag, res.Net.StatusStr(), res.AggStatus, res.Net.statusSummary()))
 		return
 	}
-	p.countRun(o, "dkls23-"+variant, key, q, len(accessIDs(key.ac)), specIDs(key.spec))
+	p.countRun(o, "dkls23-"+variant, key.ac, key.spec, key.keygen, q)
 	if res.SigAlt == nil || !res.Sig.Equal(res.SigAlt) {
 		o.Violation(c01Prop, "aggregators-disagree order=reverse "+tag)
 	}
@@ -602,7 +642,7 @@ func c01Lindell22[
 		return
 	}
 	proto := "lindell22-" + strings.SplitN(variant, ":", 2)[0]
-	p.countRun(o, proto, key, q, len(accessIDs(key.ac)), specIDs(key.spec))
+	p.countRun(o, proto, key.ac, key.spec, key.keygen, q)
 	o.Count("lindell22.nic=" + nicName)
 	if res.SigAlt == nil || !res.Sig.Equal(res.SigAlt) {
 		o.Violation(c01Prop, "aggregators-disagree second-plain-aggregator "+tag)
@@ -799,14 +839,14 @@ func c01BLS[PK curves.PairingFriendlyPoint[PK, PKF, SG, SGF, gt, bsc], PKF algeb
 		return
 	}
 	proto := "boldyreva-" + map[bls.Variant]string{bls.ShortKey: "short", bls.LongKey: "long"}[kit.variant] + "-" + algName
-	p.countRun(o, proto, key, q, len(accessIDs(key.ac)), specIDs(key.spec))
+	p.countRun(o, proto, key.ac, key.spec, key.keygen, q)
 	if res.SigAlt == nil || !res.Sig.Equal(res.SigAlt) {
 		o.Violation(c01Prop, "aggregators-disagree second-aggregator "+tag)
 	}
 	// an aggregator per quorum member, built from that member's own public material
 	var in ds.Map[ID, *boldyreva02.PartialSignature[SG, SGF, PK, PKF, gt, bsc]] = hashmap.NewComparableFromNativeLike(res.Partials).Freeze()
 	aggIDs := q
-	if p.capCNF && len(q) > 2 { // quick tier: the first and the last quorum member
+	if p.quick && len(q) > 2 { // quick tier: the first and the last quorum member
 		aggIDs = []ID{q[0], q[len(q)-1]}
 	}
 	for _, id := range aggIDs {
@@ -940,7 +980,7 @@ func runC01(c *Ctx) {
 	var jobs []job
 	stream := uint64(1)
 	seed := c.Seed
-	capCNF := !c.Thorough()
+	quick := !c.Thorough()
 	timing := os.Getenv("VERIF_C01_TIMING") != ""
 	only := os.Getenv("VERIF_C01_ONLY") // diagnostics: run one group of jobs (stream numbers are unchanged)
 	group := ""
@@ -985,7 +1025,7 @@ func runC01(c *Ctx) {
 	k256g := c03Group[*k256Point, *k256Base, *k256Scalar]{"k256", cK256}
 	p256g := c03Group[*p256Point, *p256Base, *p256Scalar]{"p256", cP256}
 	dkls := func(row c01Row, mult string, nMax int) {
-		p := c01CommonParams(row, 2, nMax, capCNF)
+		p := c01CommonParams(row, 2, nMax, quick)
 		curve, hname := row.get("curve"), row.get("hash")
 		add(func(o *jobOut, s uint64) {
 			if curve == "k256" {
@@ -1007,8 +1047,17 @@ func runC01(c *Ctx) {
 	// rotate with the seed (seeds 1..3 meet all five families), the other options drawn at random.
 	group = "dkls23"
 	if c.Thorough() {
-		for _, row := range rows("dkls23", c01DimsDKLs23, 1100, reps) {
-			dkls(row, row.get("multiplier"), 5)
+		for _, row := range rows("dkls23", c01DimsDKLs23, 1100, 1) {
+			mult := row.get("multiplier")
+			nMax := 5
+			if mult == "bbot" { // ≈ 10 CPU-seconds per pair of parties
+				nMax = 3
+			}
+			dkls(row, mult, nMax)
+		}
+		sdims := append([]c01Dim{c01DimFamily}, c01DimsDKLs23[2:]...) // two further arrays for softspoken
+		for _, row := range rows("dkls23-softspoken", sdims, 1150, 2) {
+			dkls(row, "softspoken", 5)
 		}
 	} else {
 		// (softspoken quick array: holders ≤ 3, so "rand" quorums coincide with "all": two quorum kinds)
@@ -1028,7 +1077,7 @@ func runC01(c *Ctx) {
 			}
 			idx[0] = (2*int(seed%5+5) + i) % 5
 			row := c01Row{"", bdims, idx}
-			p := c01CommonParams(row, 2, 3, capCNF)
+			p := c01CommonParams(row, 2, 3, quick)
 			p.qmode = "min"
 			if p.family == "th" || p.family == "un" || p.family == "cnf" {
 				p.nMax = 2
@@ -1056,7 +1105,7 @@ func runC01(c *Ctx) {
 		nMaxB = 5
 	}
 	for _, row := range rows("boldyreva", c01DimsBoldyreva, 1200, reps) {
-		p := c01CommonParams(row, 2, nMaxB, capCNF)
+		p := c01CommonParams(row, 2, nMaxB, quick)
 		long, alg := row.get("keysize") == "long", row.get("rogue-key")
 		add(func(o *jobOut, s uint64) {
 			if long {
@@ -1074,7 +1123,7 @@ func runC01(c *Ctx) {
 		nMaxL = 6
 	}
 	for _, row := range rows("lindell22", c01DimsLindell22, 1300, reps) {
-		p := c01CommonParams(row, 2, nMaxL, capCNF)
+		p := c01CommonParams(row, 2, nMaxL, quick)
 		variant, nic := row.get("variant"), row.get("nic")
 		curve := []string{"k256", "p256", "ed25519", "pallas"}[pick.IntN(4)]
 		hname := c01DimHash.vals[pick.IntN(4)]
@@ -1093,7 +1142,7 @@ func runC01(c *Ctx) {
 	// Lindell22: the remaining arguments of the configurable Schnorr constructor
 	group = "vanilla"
 	for _, row := range rows("vanilla", c01DimsVanilla, 1400, reps) {
-		p := c01CommonParams(row, 2, nMaxL, capCNF)
+		p := c01CommonParams(row, 2, nMaxL, quick)
 		p.realSession = pick.IntN(3) == 0
 		resp, curve, hname, parity := row.get("response"), row.get("curve"), row.get("hash"), row.get("negate-nonce") == "parity"
 		nic := c01DimNIC.vals[pick.IntN(3)]
@@ -1102,23 +1151,77 @@ func runC01(c *Ctx) {
 		})
 	}
 
-	// explicitly non-ideal MSPs: a holder that owns several rows is in the signing quorum
+	// explicitly non-ideal MSPs, with quorums in which one holder MUST contribute several of its rows:
+	//   cnf:a|b|c (2-of-3 in CNF form: three pieces, any two holders) with a two-party quorum;
+	//   and(or(a,b),or(a,c),d) with the quorum {a,d}: a answers both OR gates;
+	//   or(and(a,b),and(a,c)) with all holders (a owns two rows, either may be used).
 	group = "non-ideal"
-	for i := range 4 * reps {
-		ids := genIDs(pick, 3, 0)
-		p := c01Params{family: "bool", keygen: c01DimKeygen.vals[pick.IntN(3)], nMin: 3, nMax: 3, capCNF: capCNF,
-			spec:  fmt.Sprintf("bool:or(and(%d,%d),and(%d,%d))", ids[0], ids[1], ids[0], ids[2]),
-			qmode: []string{"all", "rand"}[i%2], runner: i%3 == 2, realSession: i%2 == 1}
+	nNonIdeal := 6
+	if c.Thorough() {
+		nNonIdeal = 18
+	}
+	for i := range nNonIdeal {
+		p := c01Params{family: "bool", keygen: c01DimKeygen.vals[pick.IntN(3)], nMin: 3, nMax: 3, quick: quick,
+			qmode: "all", runner: i%4 == 3, realSession: i%2 == 1}
+		switch i % 3 {
+		case 0:
+			ids := genIDs(pick, 3, 0)
+			p.family, p.spec, p.qmode = "cnf", fmt.Sprintf("cnf:%d|%d|%d", ids[0], ids[1], ids[2]), "min"
+		case 1:
+			ids := genIDs(pick, 4, 0)
+			p.spec = fmt.Sprintf("bool:and(or(%d,%d),or(%d,%d),%d)", ids[0], ids[1], ids[0], ids[2], ids[3])
+			p.fixedQuorum, p.qmode = []ID{ids[0], ids[3]}, "min"
+		default:
+			ids := genIDs(pick, 3, 0)
+			p.spec = fmt.Sprintf("bool:or(and(%d,%d),and(%d,%d))", ids[0], ids[1], ids[0], ids[2])
+		}
 		neg := pick.IntN(2) == 0
 		switch i % 4 {
 		case 0:
-			add(func(o *jobOut, s uint64) { c01VanillaOn(o, seed, s, "k256", "sha256", neg, false, false, "fiatshamir", p) })
+			add(func(o *jobOut, s uint64) {
+				c01VanillaOn(o, seed, s, "k256", "sha256", neg, false, false, "fiatshamir", p)
+			})
 		case 1:
 			add(func(o *jobOut, s uint64) { c01ECDSA(o, seed, s, k256g, cK256, "softspoken", "sha256", p) })
 		case 2:
 			add(func(o *jobOut, s uint64) { c01BIP340(o, seed, s, "fiatshamir", p) })
 		default:
 			add(func(o *jobOut, s uint64) { c01BLS(o, seed, s, c01BLSShortKit(), "pop", p) })
+		}
+	}
+	// thorough: every qualified quorum (≥ 2 members) of one 4-holder structure per family
+	if c.Thorough() {
+		group = "all-quorums"
+		for _, fam := range accessFamilies {
+			spec := genSpec(pick, fam, 4, false)
+			for cnfPowerlessHolder(spec) {
+				spec = genSpec(pick, fam, 4, false)
+			}
+			ac, err := parseAccess(spec)
+			if err != nil {
+				continue
+			}
+			qs, _ := qualifiedSets(ac)
+			for k, q := range qs {
+				if len(q) < 2 {
+					continue
+				}
+				p := c01Params{family: fam, keygen: c01DimKeygen.vals[k%3], nMin: 4, nMax: 4, spec: spec, fixedQuorum: q, qmode: "rand", runner: k%2 == 1}
+				neg := k%2 == 0
+				switch k % 3 {
+				case 0:
+					add(func(o *jobOut, s uint64) { c01BIP340(o, seed, s, "fiatshamir", p) })
+				case 1:
+					add(func(o *jobOut, s uint64) {
+						c01VanillaOn(o, seed, s, "ed25519", "sha512", neg, false, false, "fiatshamir", p)
+					})
+				default:
+					add(func(o *jobOut, s uint64) { c01BLS(o, seed, s, c01BLSShortKit(), "basic", p) })
+				}
+				if len(q) <= 3 && k%4 == 0 {
+					add(func(o *jobOut, s uint64) { c01ECDSA(o, seed, s, k256g, cK256, "softspoken", "sha256", p) })
+				}
+			}
 		}
 	}
 	par := 12
